@@ -749,6 +749,19 @@ func genC08(w *bufio.Writer, rng *hx.Rng, tier string) {
 	for i := 0; i < nstress; i++ {
 		fmt.Fprintf(w, "c08.stopstress %d %d %d %d %d\n", rounds, 4+i%5, 2+i%3, 30, rng.U64())
 	}
+	// heartbeat period against the harness's reference clock, FlushTimeout far above 100 ms
+	nhb := 3
+	if tier == "thorough" {
+		nhb = 12
+	}
+	for i := 0; i < nhb; i++ {
+		n := i % 3
+		fmt.Fprintf(w, "c08.hbperiod %d %d %d %d", 1+i%3, []int{1000, 600, 5000, 3600000}[i%4], 100, n)
+		for j := 0; j < n; j++ {
+			fmt.Fprintf(w, " %d %d", rng.Range(0, 30), rng.Intn(2))
+		}
+		w.WriteByte('\n')
+	}
 	// slow trickles: gaps a fraction of the flush timeout, limits far above what arrives; zero-size and
 	// child events (what Spawn produces) first, last, mixed
 	for i := 0; i < ntrickle; i++ {
